@@ -6,6 +6,15 @@ import Rbacx.Proofs.EnforcerTranslated
   access path into it, every store a functional update of the state, every operation that can raise `Option`-valued) — equals the
   hand-written model `Redact.setByPath` / `Redact.applySpecs` (Model/Redact.lean), the functions the theorems `Rbacx.C19.*` are about.
   `= some …` also says: no subscript, unpacking or `int()` of the source lets an exception escape, and the `while` budget suffices.
+
+  * `ensure_list_size` / `ensure_at` — the helper through a reference: the list grows as `ensureSize` says (budget `idx + 1 - len(lst)`);
+  * `block_child_list` / `block_child_dict` — `if k not in cur or not isinstance(cur[k], T): cur[k] = T()` on a dict node, generic in
+    what follows;
+  * `set_by_path` — for EVERY tree, path string and value (no hypothesis): `= some (setByPath obj path value)`; the body of the emitted
+    loop is shown to act as `iterModel` (Proofs/EnforcerTranslated.lean), `forEnumFrom_setParts` does the induction;
+  * `apply_obligations` — for documented specs (`plainSpec`, the hypothesis of `c19_redaction_total`), every payload and `in_place`:
+    `= some (applySpecs payload specs).1`, nothing raised; `apply_obligations_none`, `apply_obligations_io`.
+  Trusted: the translator and Model/PyCursor.lean (validated against CPython by Run/SrcEvalEnforcer.lean on every run).
 -/
 namespace Rbacx.Translated
 open Rbacx Rbacx.Generated Rbacx.PyC Rbacx.Redact
@@ -151,8 +160,64 @@ theorem set_by_path_pathStr (obj p : PyVal) (s : String) (value : PyVal) (h : pa
     rw [this]
   rw [e, set_by_path]
 
+
+/-- `apply_obligations(payload, specs, in_place=…)` on DOCUMENTED specs (`plainSpec`: a mapping whose `fields` is missing, falsy or a
+    list of `str` — the hypothesis of `c19_redaction_total`): the translated source returns — nothing raises — the model's
+    `applySpecs payload specs`, whatever `in_place` is.  (`payload` is the VALUE the caller passed: it is not changed by anything here;
+    that the caller's OBJECT is untouched without `in_place`, and is the returned one with it, is what `copy.deepcopy` buys in CPython
+    — `deepcopy` is the identity on values — and is tied by the harness's identity / before-after checks.) -/
+theorem apply_obligations (payload : PyVal) (specs : List PyVal) (in_place : PyVal) (h : specs.all plainSpec = true) :
+    Src.apply_obligations payload (.list specs) in_place = some (applySpecs payload specs).1 ∧ (applySpecs payload specs).2 = false := by
+  unfold Src.apply_obligations
+  have hst : (if in_place.truthy = true then payload else deepcopy payload) = payload := by simp [deepcopy]
+  have hit : Py.iter (PyVal.por (.list specs) (.list [])) = specs := by
+    cases specs <;> simp [PyVal.por, PyVal.truthy, Py.iter]
+  simp only [hst, hit, Option.bind_fun_some]
+  refine forState_specs _ ?_ specs h payload
+  intro ob st hp
+  obtain ⟨kvs, rfl⟩ : ∃ kvs, ob = .dict kvs := by cases ob <;> simp [plainSpec] at hp; exact ⟨_, rfl⟩
+  obtain ⟨ps, hf, hstr, hiter⟩ := fields_plain kvs hp
+  simp only [hiter]
+  have hmask : ∀ v : PyVal, forState ps st (fun path st => Src.set_by_path st path v)
+      = some (applyWrites st (ps.filterMap fun p => (pathStr p).map fun s => (s, v))) :=
+    fun v => forState_paths _ v (fun s st => set_by_path st s v) ps hstr st
+  simp only [hmask, specWrites, hf, Option.map_some, Py.get, PyVal.get, Py.getD, Py.eq]
+  cases hl : lookup "type" kvs with
+  | none => exact ⟨[], rfl, rfl⟩
+  | some t =>
+    cases t with
+    | str s =>
+      by_cases h1 : s = "mask_fields"
+      · subst h1
+        exact ⟨_, rfl, by simp [PyVal.pyEq, PyVal.truthy, phMask]⟩
+      · by_cases h2 : s = "redact_fields"
+        · subst h2
+          exact ⟨_, rfl, by simp [PyVal.pyEq, PyVal.truthy, phRedact]⟩
+        · refine ⟨[], ?_, by simp [PyVal.pyEq, PyVal.truthy, h1, h2, applyWrites_nil]⟩
+          split <;> simp_all
+    | _ => exact ⟨[], rfl, by simp [PyVal.pyEq, PyVal.truthy, applyWrites_nil]⟩
+
+/-- `obligations=None` / `[]`: the payload comes back as it is -/
+theorem apply_obligations_none (payload in_place : PyVal) :
+    Src.apply_obligations payload .none in_place = some payload := by
+  unfold Src.apply_obligations
+  have hst : (if in_place.truthy = true then payload else deepcopy payload) = payload := by simp [deepcopy]
+  have hit : Py.iter (PyVal.por .none (.list [])) = [] := rfl
+  simp only [hst, hit, forState, Option.bind_some]
+
+/-- what the caller sees (`applyObligationsIO`): the returned payload is the model's; without `in_place` the payload passed in — a
+    value — is what it was -/
+theorem apply_obligations_io (payload : PyVal) (specs : List PyVal) (in_place : Bool) (h : specs.all plainSpec = true) :
+    Src.apply_obligations payload (.list specs) (.bool in_place) = some (applyObligationsIO payload specs in_place).1 ∧
+      (in_place = false → (applyObligationsIO payload specs in_place).2 = payload) := by
+  refine ⟨(apply_obligations payload specs _ h).1, ?_⟩
+  intro hf; simp [applyObligationsIO, hf]
+
 end Rbacx.Translated
 
 #print axioms Rbacx.Translated.ensure_list_size
 #print axioms Rbacx.Translated.set_by_path
 #print axioms Rbacx.Translated.set_by_path_pathStr
+#print axioms Rbacx.Translated.apply_obligations
+#print axioms Rbacx.Translated.apply_obligations_none
+#print axioms Rbacx.Translated.apply_obligations_io
